@@ -49,6 +49,10 @@ def randgraph(
         if ensurelink:
             k = max(k, 1)
 
+        # the default connectivity (5 / count) exceeds 1 for small graphs; a
+        # vertex cannot be linked to more distinct vertices than there are
+        k = min(k, count)
+
         adj[verts[i]] = random.sample(verts, k)
 
     return adjlist.load_adj_dict(adj, linktype=edge)
